@@ -5,6 +5,8 @@ package tan
 // instead of every 64 MiB. Only the db options differ from CreateTan.
 
 import (
+	"io"
+	"log"
 	"testing"
 
 	"github.com/lni/vfs"
@@ -19,6 +21,9 @@ import (
 )
 
 func init() {
+	// Pebble logs "background error: vfs: not supported" (MemFS has no disk
+	// usage) through the standard logger on every open
+	log.SetOutput(io.Discard)
 	for _, name := range []string{"tan", "logdb", "config", "settings", "dragonboat", "fileutil", "utils"} {
 		logger.GetLogger(name).SetLevel(logger.ERROR)
 	}
@@ -110,7 +115,9 @@ func TestVF_C10_Crash_TanTiny(t *testing.T) {
 	st := vfhelp.NewStats("TestVF_C10_Crash_TanTiny", logstore.C10CrashRule+"; tan MaxLogFileSize drawn from 200..8000 bytes")
 	defer st.Flush()
 	cfg := logstore.CrashCfg{
-		Gen:        logstore.GenCfg{MaxEntries: 100, MinOps: 5, MaxOps: 25, BigCmd: true},
+		Gen: logstore.GenCfg{MaxEntries: 100, MinOps: 5, MaxOps: 25, BigCmd: true,
+			Weights: map[logstore.OpKind]int{logstore.OpImport: 6, logstore.OpRemoveNode: 5,
+				logstore.OpRemoveEntries: 10, logstore.OpSaveSnapshots: 12}},
 		Exhaustive: vfhelp.Thorough(),
 		MaxPoints:  64,
 	}
@@ -118,7 +125,11 @@ func TestVF_C10_Crash_TanTiny(t *testing.T) {
 	rapid.Check(t, func(t *rapid.T) {
 		max := rapid.SampledFrom(vfTinySizes).Draw(t, "maxlogfilesize")
 		mux := rapid.IntRange(0, 2).Draw(t, "mux") == 0
-		logstore.RunC10Crash(t, st, vfTinyTraits(mux), vfTinyOpener(max, mux), cfg)
+		c := cfg
+		// two thirds of the workloads avoid the trigger of known finding S9 so
+		// that the search continues behind it
+		c.Gen.NoCommitOnly = rapid.IntRange(0, 2).Draw(t, "no-commit-only") != 0
+		logstore.RunC10Crash(t, st, vfTinyTraits(mux), vfTinyOpener(max, mux), c)
 	})
 }
 
@@ -130,8 +141,9 @@ func TestVF_C10_Crash_TanTiny(t *testing.T) {
 func TestVF_C10_ReproS9Rollover(t *testing.T) {
 	st := vfhelp.NewStats("TestVF_C10_ReproS9Rollover", "fixed reproduction of S9 (tan log rollover)")
 	defer st.Flush()
+	st.Set("exhaustive", true) // fixed case(s), nothing sampled
 	mem := vfs.NewStrictMem()
-	open := vfTinyOpener(300, false)
+	open := vfTinyOpener(1<<20, false)
 	db, err := open(mem)
 	if err != nil {
 		t.Fatalf("open: %v", err)
@@ -149,9 +161,18 @@ func TestVF_C10_ReproS9Rollover(t *testing.T) {
 			t.Fatalf("save: %v", err)
 		}
 	}
-	save(pb.Update{State: pb.State{Term: 5, Vote: 2, Commit: 1}, EntriesToSave: ents(1, 8)}) // > 300 bytes, fsynced
-	save(pb.Update{State: pb.State{Term: 5, Vote: 2, Commit: 8}})                            // commit only: no fsync
-	save(pb.Update{EntriesToSave: ents(9, 10)})                                               // rolls over first, fsyncs the new file
+	save(pb.Update{State: pb.State{Term: 5, Vote: 2, Commit: 1}, EntriesToSave: ents(1, 8)}) // fsynced
+	// let the log file be "full" after one more small record: MaxLogFileSize is
+	// the current offset + 1 (any value is legal for the option)
+	d, err := db.(*LogDB).getDB(1, 1)
+	if err != nil {
+		t.Fatalf("getDB: %v", err)
+	}
+	d.mu.Lock()
+	d.opts.MaxLogFileSize = d.mu.offset + 1
+	d.mu.Unlock()
+	save(pb.Update{State: pb.State{Term: 5, Vote: 2, Commit: 8}}) // commit only: written, no fsync
+	save(pb.Update{EntriesToSave: ents(9, 10)})                   // rolls over first, fsyncs only the new file
 	// power cut
 	mem.SetIgnoreSyncs(true)
 	_ = db.Close()
